@@ -27,7 +27,9 @@ ASSUMPTIONS = [
 
 
 def check(ctx):
-    return ca_common.run(ctx, "KrillModel.Props.C04", "C04", ASSUMPTIONS)
+    # body of KeyState::knows_key regenerated from ca/keys.rs; C04Src: = the model's KeyState.knows
+    return ca_common.run(ctx, "KrillModel.Props.C04", "C04", ASSUMPTIONS,
+                         translate=[("pure_fns:C04", "PureFns.lean")], extra_modules=["KrillModel.Props.C04Src"])
 
 
 def replay(ctx, data):
@@ -64,5 +66,5 @@ MANIFEST = {
             "02d8de59, 7be8c4c6, 239f0a59): their scenarios stay in the corpus and fail the check if the behaviour returns. Open: "
             "F-C04-2 (activation re-issues ROAs outside a shrunken new certificate). Real cryptography, manifests/CRLs and the wall clock are outside the model.",
     "technique": "Lean 4 proof (invariants by induction over command histories, finite abstraction + decide, concrete counter-examples) "
-                 "+ source translator (panic domains) + correspondence check",
+                 "+ source translators (panic domains of the apply functions; body of KeyState::knows_key = the model: gen_knows_key_eq_model) + correspondence check",
 }
